@@ -6,7 +6,9 @@ from common import *
 from mbox import U
 import c17
 
-NAMES = [None, "end\\", "\\", 'q"', "a," + chr(0x422), "x\\y\\", "Kayo", "Doe, John", "é", "a  b", 'q"x', "back\\slash", " pad ", "", "9", "a\tb", "<x>", "a@b", "a\0b", "a\nb", "=?utf-8?b?QQ==?="]
+NAMES = [None, "end\\", "\\", 'q"', "a," + chr(0x422), "x\\y\\", "Kayo", "Doe, John", "é", "a  b", 'q"x', "back\\slash", " pad ", "", "9", "a\tb", "<x>", "a@b", "a\0b", "a\nb", "=?utf-8?b?QQ==?=",
+         # white space of every kind at the edges of a name is trimmed away - line breaks included (a name read from a file or a form)
+         "Bob\n", "\r\nEve\r\n", "\n", "\r", "\tTab\x0b", "\x0cFf\x85", "\u2003Em\u00a0"]
 ADDRS = ["a@x.org", "b@y.org", "user.name+tag@sub.example.com", "é@example.com", "u@é.example", '"a b"@example.com', "x@[127.0.0.1]", "c@z.org", "-f@example.com", "a@X.ORG", "A@x.org", "root@localhost", "cron@buildhost"]
 KINDS = ["from", "to", "cc", "bcc", "reply_to", "sender"]
 
